@@ -22,7 +22,7 @@ import numpy as np
 from .. import eqcases, eqterm
 from ..gen import eqfamilies
 
-FAMILIES = ("callables", "einsums", "history-graphs")
+FAMILIES = ("callables", "einsums", "history-graphs", "kind-instances")
 
 
 def _kind_of_label(name, lbl):
@@ -90,23 +90,28 @@ def judge_children(ctx, outs, mode: str):
                         sig = (f"rebuilt-xproc-unequal:traced-callable:{kk}" if name == "callables"
                                else "rebuilt-xproc-unequal:einsum" if name == "einsums"
                                else f"rebuilt-xproc-unequal:{kk}")
+                        if name == "kind-instances" and _has_identity_leaf(row["g1"]):
+                            continue
                         ctx.violation(sig, f"{name} {lbl}: the same program builds a structurally different graph in a "
                                            f"fresh interpreter with PYTHONHASHSEED={hs}", rep)
                     if t.get("twin_eq") is False:
                         ndis += 1
                         ctx.violation(f"eq-unequal-for-equal-callables:{kk}", f"{lbl} (in a fresh interpreter)", rep)
                     raw = ch["family_pickles"].get(f"{name}/{lbl}")
-                    if raw is not None:
+                    if raw is not None and not _has_identity_leaf(row["g1"]):
                         q = pickle.loads(raw)
                         ob = eqcases.observe(row["g1"], q)
                         if ob["eq"] is not True or ob["eq_rev"] is not True:
                             ndis += 1
-                            ctx.violation(f"rebuilt-xproc-unequal:traced-callable:{kk}",
+                            ctx.violation(f"rebuilt-xproc-unequal:traced-callable:{kk}" if name == "callables"
+                                          else f"pickle-xproc-unequal:{eqterm.kind_of(row['g1'])}",
                                           f"{lbl}: the graph built and pickled under PYTHONHASHSEED={hs} is != the one "
                                           f"built here", {**rep, "observed": ob})
                         elif ob["hash_eq"] is not True:
                             ndis += 1
-                            ctx.violation(f"pickle-xproc-hash:traced-callable:{kk}", f"{lbl}: equal, other hash",
+                            ck = eqcases.culprit(row["g1"], q, lambda x, y: (x == y) and hash(x) != hash(y))
+                            ctx.violation(f"pickle-xproc-hash:traced-callable:{kk}" if name == "callables"
+                                          else f"pickle-xproc-hash:{ck}", f"{lbl}: equal, other hash",
                                           {**rep, "observed": ob})
     ctx.note_batch("families-in-fresh-interpreters", ncase, ndis, exhaustive=True,
                    families={n: len(eqcases.family_rows(n, ctx.tier)) for n in FAMILIES},
@@ -379,3 +384,198 @@ def key_histories(ctx):
                               f"objects it is {want}", {"graph": lbl, "history": hn, "key_fresh": want, "key": got})
     ctx.note_batch("key-histories", ncase, ndis, exhaustive=True, graphs=sorted(eqfamilies.history_builders()),
                    note="fresh-interpreter history: family `history-graphs` of the families-in-fresh-interpreters batch")
+
+
+# ------------------------------------------------------------------ equal-but-distinct copies
+
+def _has_identity_leaf(node) -> bool:
+    try:
+        return any(type(n).__name__ == "DataWrapper" for n in eqterm.all_nodes(node))
+    except Exception:   # noqa: BLE001
+        return False
+
+
+def _distinct_copy(x):
+    """a deep copy in which EVERY object (nodes, axes, tags, slices, descriptors, expressions, mappings) is a
+    new object — except wrapped data / data wrappers (identity semantics) and loopy kernels"""
+    import copy
+    memo = {}
+    try:
+        for n in eqterm.all_nodes(x):
+            if type(n).__name__ == "DataWrapper":
+                memo[id(n)] = n
+            if type(n).__name__ == "LoopyCall":
+                memo[id(n.translation_unit)] = n.translation_unit
+    except Exception:   # noqa: BLE001
+        pass
+    return copy.deepcopy(x, memo)
+
+
+def _field_objects(x, seen=None, out=None, depth=0):
+    """dataclass objects of pytato / pymbolic reachable through fields, tuples, sets and mappings"""
+    import dataclasses
+    from collections.abc import Mapping
+    seen = set() if seen is None else seen
+    out = [] if out is None else out
+    if id(x) in seen or depth > 12:
+        return out
+    seen.add(id(x))
+    if dataclasses.is_dataclass(x) and not isinstance(x, type):
+        if type(x).__module__.split(".")[0] in ("pytato", "pymbolic", "harness"):
+            out.append(x)
+        for f in dataclasses.fields(x):
+            _field_objects(getattr(x, f.name, None), seen, out, depth + 1)
+    elif isinstance(x, (tuple, list, frozenset, set)):
+        for e in x:
+            _field_objects(e, seen, out, depth + 1)
+    elif isinstance(x, Mapping) and not eqterm._is_node(x):
+        for e in x.values():
+            _field_objects(e, seen, out, depth + 1)
+    return out
+
+
+def equal_copies(ctx):
+    """every class with an `==` / `hash` of its own (found by walking the fields of one instance of every node
+    kind: nodes, DistributedSend, FunctionDefinition, NormalizedSlice, Axis, descriptors, tags, Reduce, TypeCast …):
+    an instance and a copy in which every field is an equal-but-DISTINCT object must be ==  (both orders), hash alike
+    and collapse in a set; the same after a pickle round trip"""
+    ncase = ndis = 0
+    classes = set()
+    for spec, base in eqfamilies.kind_instances():
+        objs = _field_objects(base)
+        for o in objs:
+            cls = type(o).__name__
+            classes.add(cls)
+            for how, mk in (("deep copy", _distinct_copy),
+                            ("pickle round trip", lambda v: pickle.loads(pickle.dumps(v)))):
+                if how == "pickle round trip" and (o is not base or _has_identity_leaf(o)):
+                    continue
+                ncase += 1
+                try:
+                    c = mk(o)
+                    ok_eq = bool(o == c) and bool(c == o)
+                    ok_hash = hash(o) == hash(c)
+                    ok_set = len({o, c}) == 1
+                except TypeError:
+                    continue        # unhashable helper objects
+                except Exception as e:   # noqa: BLE001
+                    ndis += 1
+                    ctx.violation(f"eq-raises:equal-copy:{cls}", f"{spec}: {type(e).__name__}: {e}"[:300], {"spec": spec})
+                    continue
+                rep = {"spec": spec, "class": cls, "how": how}
+                if not ok_eq:
+                    ndis += 1
+                    ctx.violation(f"eq-unequal-for-equal-copy:{cls}",
+                                  f"a {cls} (inside the probe instance {spec}) is != its {how} whose fields are equal but "
+                                  f"distinct objects", rep)
+                elif not ok_hash or not ok_set:
+                    ndis += 1
+                    ctx.violation(f"hash-finer-than-eq:equal-copy:{cls}",
+                                  f"a {cls} ({spec}) equals its {how} but hash equal is {ok_hash}, set-dedup {ok_set}", rep)
+    ctx.note_batch("equal-but-distinct-copies", ncase, ndis, exhaustive=True, classes=sorted(classes))
+
+
+# ------------------------------------------------------------------ symbolic shape components
+
+def symbolic_shapes(ctx):
+    """nodes of every kind that stores a shape / newshape / index with ARRAY-VALUED components: the component is
+    (i) the same expression built twice, (ii) another expression of the same VALUE (commuted, re-associated, n+n vs
+    2*n, n+0, n*1), (iii) the same expression over a differently tagged / named size parameter.  `==` holds exactly
+    for (i); `==` implies equal hashes and set membership; congruence: a == b implies f(a) == f(b)."""
+    import dataclasses
+
+    import pytato as pt
+    from pytato.array import NormalizedSlice
+
+    from ..gen import kinds
+    from ..extract import eqtable
+
+    def n_(tag=None, name="n"):
+        p = pt.make_size_param(name)
+        return p.tagged(tag) if tag is not None else p
+    comps = {
+        "n+1": (lambda: n_() + 1, [("identical", lambda: n_() + 1), ("value:commuted", lambda: 1 + n_()),
+                                   ("value:n+0+1", lambda: (n_() + 0) + 1), ("tagged-size-param", lambda: n_(kinds.VFooTag()) + 1),
+                                   ("other-name", lambda: n_(name="m") + 1)]),
+        "2*n": (lambda: 2 * n_(), [("identical", lambda: 2 * n_()), ("value:n+n", lambda: n_() + n_()),
+                                   ("value:n*2", lambda: n_() * 2), ("tagged-size-param", lambda: 2 * n_(kinds.VBarTag()))]),
+        "n": (lambda: n_(), [("identical", lambda: n_()), ("value:n+0", lambda: n_() + 0), ("value:n*1", lambda: n_() * 1),
+                             ("tagged-size-param", lambda: n_(kinds.VFooTag())), ("other-name", lambda: n_(name="m"))]),
+        "(n+1)+1": (lambda: (n_() + 1) + 1, [("identical", lambda: (n_() + 1) + 1), ("value:n+2", lambda: n_() + 2),
+                                             ("value:re-associated", lambda: n_() + (1 + 1))]),
+    }
+
+    def with_component(base, fld, comp):
+        v = getattr(base, fld)
+        if fld == "indices":
+            new = tuple(NormalizedSlice(0, comp, 1) if isinstance(ix, NormalizedSlice) and not done.get("d") and not done.update(d=1)
+                        else ix for ix in v)
+            return dataclasses.replace(base, indices=new)
+        return kinds.mutate(base, fld, (comp, *v[1:]))
+    contexts = {"2*a+1": lambda a: 2 * a + 1, "sum": lambda a: pt.sum(a), "stack": lambda a: pt.stack([a, a]),
+                "dict": lambda a: pt.make_dict_of_named_arrays({"o": a}), "tagged": lambda a: a.tagged(kinds.VBarTag())}
+    ncase = ndis = 0
+    hosts = []
+    for spec, sp in sorted(eqtable.all_specs(with_loopy=False).items()):
+        base = sp.base
+        for fld in ("shape", "newshape", "indices"):
+            if fld not in {f.name for f in dataclasses.fields(base)}:
+                continue
+            v = getattr(base, fld)
+            if not isinstance(v, tuple) or not v:
+                continue
+            if fld == "indices" and not any(isinstance(ix, NormalizedSlice) for ix in v):
+                continue
+            if eqterm.kind_of(base) == "DataWrapper":
+                continue        # compares by identity (documented)
+            hosts.append((spec, base, fld))
+    kinds_seen = set()
+    for spec, base, fld in hosts:
+        K = f"{eqterm.kind_of(base)}.{fld}"
+        for cname, (mk, variants) in comps.items():
+            try:
+                done = {}
+                a = with_component(base, fld, mk())
+            except Exception:   # noqa: BLE001
+                continue
+            kinds_seen.add(K)
+            for vname, mkv in variants:
+                try:
+                    done = {}
+                    b = with_component(base, fld, mkv())
+                except Exception:   # noqa: BLE001
+                    continue
+                ncase += 1
+                expect = vname == "identical"
+                vclass = vname.split(":")[0]
+                rep = {"host": spec, "field": fld, "component": cname, "variant": vname}
+                try:
+                    eq, eq_rev = bool(a == b), bool(b == a)
+                except Exception as e:   # noqa: BLE001
+                    ndis += 1
+                    ctx.violation(f"eq-raises:symbolic-shape:{K}", f"{rep}: {type(e).__name__}: {e}"[:300], rep)
+                    continue
+                if eq != expect or eq_rev != expect:
+                    ndis += 1
+                    ctx.violation(f"eq-{'conflates' if eq or eq_rev else 'unequal'}:symbolic-shape:{K}:{vclass}",
+                                  f"two {eqterm.kind_of(base)} nodes whose `{fld}` component is {cname} and {vname}: "
+                                  f"a==b {eq}, b==a {eq_rev}; structural equality says {expect}", rep)
+                    # fall through: hash / congruence of what the code says
+                if eq:
+                    if hash(a) != hash(b) or (b in {a}) is not True:
+                        ndis += 1
+                        ctx.violation(f"hash-finer-than-eq:symbolic-shape:{K}:{vclass}",
+                                      f"{rep}: a == b but hashes differ / b in {{a}} is False", rep)
+                    for fn, f in contexts.items():
+                        try:
+                            fa, fb = f(a), f(b)
+                        except Exception:   # noqa: BLE001
+                            continue
+                        ncase += 1
+                        if not (fa == fb):
+                            ndis += 1
+                            ctx.violation(f"congruence-broken:symbolic-shape:{K}:{vclass}",
+                                          f"{rep}: a == b but {fn}(a) != {fn}(b)", {**rep, "context": fn})
+                            break
+    ctx.note_batch("symbolic-shape-components", ncase, ndis, exhaustive=True, hosts=sorted(kinds_seen),
+                   components=sorted(comps))
